@@ -14,12 +14,15 @@
      regex terminal and that never change the whitespace mode ([cmt_wf]), memoization off, for runs that
      do not run out of fuel (the mutated run needs one more turn of the comment loop);
    all hypotheses are decidable and evaluated by ./check C22 on every generated case.
+   * whole-run form of "only the active set is skipped" for grammars without Comment rule (any rule
+     modifiers, memoization off): an accepted input is tiled from 0 to its end by characters of the
+     grammar's whitespace sets and matches of the grammar's terminals (C22_accepted_is_tiled).
    NOT proved: Comment insertion for Comment rules with several alternatives / sub-rules and with
    memoization on; whitespace insertion with memoization on outside ctx_constant.  Outside cmt_wf's
    mode-constancy the statement is false (C22_refuted_comment_modes). *)
 From TxV Require Import Core.Base Model.PegSyntax Model.Peg Proofs.PegProofs Proofs.PegMemo.
 From TxV Require Import Model.PegWsDefs
-     Proofs.PegWs Proofs.PegWsSim Proofs.PegCmtSim Proofs.PegWsMemo Proofs.PegWsWit.
+     Proofs.PegWs Proofs.PegWsSim Proofs.PegCmtSim Proofs.PegWsMemo Proofs.PegGap Proofs.PegWsWit.
 
 (* skip absorption: from related positions (equal left of the insertion point, anywhere inside the
    inserted text at it, shifted right of it) skipping ends at corresponding positions *)
@@ -133,3 +136,29 @@ Proof.
          [10;32;102;111;111]%N. exact cmt2_refuted.
 Qed.
 Print Assumptions C22_refuted_comment_modes.
+
+(* whole-run "only the active set is skipped" (no Comment rule): [covered g cfg input orc p q] = the text
+   from p to q is a concatenation of characters of all_ws g cfg (the configured set and the rule-level sets)
+   and of matches of terminal nodes of g (tmatch = Some len at that place) *)
+Theorem C22_accepted_is_tiled : forall g cfg orc fuel input r,
+  g_comments g = None -> top_eof g = true ->
+  run g cfg orc false fuel input = Parsed r ->
+  covered g cfg input orc 0 (length input).
+Proof. exact accepted_is_covered. Qed.
+Print Assumptions C22_accepted_is_tiled.
+
+(* every successful sub-parse moves only over such text (the invariant behind the theorem) *)
+Theorem C22_parse_moves_over_tiles : forall g cfg input orc, g_comments g = None ->
+  forall fuel nid psq x p0 r x1,
+    GI g cfg x -> covered g cfg input orc p0 (pos x) ->
+    parse g input orc false fuel nid psq x = Ok r x1 ->
+    GI g cfg x1 /\ covered g cfg input orc p0 (pos x1).
+Proof. exact parse_moves_over_tiles. Qed.
+Print Assumptions C22_parse_moves_over_tiles.
+
+Example C22_tiled_nonvacuous :
+  g_comments g_plain = None /\ top_eof g_plain = true /\
+  PegWsDefs.accepts (run g_plain c_default no_orc false 50 [97;32;32;98;10;98]%N) = true /\
+  all_ws g_plain c_default = c_ws c_default.
+Proof. exact plain_tiled_nonvacuous. Qed.
+Print Assumptions C22_tiled_nonvacuous.
